@@ -162,6 +162,8 @@ def make_case(i):
         plan.append(('a%d' % h, x, y, op))
         h += 1
     c.meta = {'A': A, 'B': B, 's': s, 'K': K, 'style': style, 'plan': plan, 'seed': sd, 'touching': touching}
+    if i == PROBE2_INDEX:
+        c.meta['force_points'] = [(5.5, -0.5)]
     return c
 
 
@@ -229,7 +231,10 @@ def judge(chk, c, evs):
         for t in range(900):
             if tested >= 260:
                 break
-            if verts and t % 3 != 2:
+            if t < len(m.get('force_points', ())):
+                px, py = m['force_points'][t][0] * K, m['force_points'][t][1] * K      # probes: the place where the finding shows
+                px, py = int(px), int(py)
+            elif verts and t % 3 != 2:
                 vx, vy = rnd.choice(verts)
                 r_ = max(3.0 * guard, 0.004 * w) * rnd.choice([1, 1, 2, 4])
                 px = vx + int(rnd.uniform(-r_, r_))
